@@ -60,20 +60,61 @@ pub fn unhex_str(s: &str) -> Option<String> {
 }
 
 /// Reads an ops file, calls `f(line)` for every line, writes one output line per input line.
+///
+/// A watchdog thread turns a hang inside the real code (deadlock, livelock) into an observable
+/// outcome instead of a stuck check: if one op line makes no progress for `HX_LINE_TIMEOUT_S`
+/// seconds (default 60) the watchdog writes `hang ## fail hang` for that line, `skipped` for the
+/// rest of the file, and ends the process.
 pub fn run_ops(
     ops_path: &str,
     out_path: &str,
     mut f: impl FnMut(&str) -> String,
 ) -> std::io::Result<()> {
-    let input = std::io::BufReader::new(std::fs::File::open(ops_path)?);
-    let mut out = std::io::BufWriter::new(std::fs::File::create(out_path)?);
-    for line in input.lines() {
-        let line = line?;
+    use std::sync::atomic::{AtomicU64, Ordering};
+    use std::sync::{Arc, Mutex};
+    let lines: Vec<String> = std::io::BufReader::new(std::fs::File::open(ops_path)?)
+        .lines()
+        .collect::<Result<_, _>>()?;
+    let total = lines.len() as u64;
+    let out = Arc::new(Mutex::new(std::io::BufWriter::new(std::fs::File::create(out_path)?)));
+    let done = Arc::new(AtomicU64::new(0));
+    let limit: u64 = std::env::var("HX_LINE_TIMEOUT_S").ok().and_then(|v| v.parse().ok()).unwrap_or(60);
+    {
+        let out = out.clone();
+        let done = done.clone();
+        std::thread::spawn(move || {
+            let mut last = 0u64;
+            let mut since = std::time::Instant::now();
+            loop {
+                std::thread::sleep(std::time::Duration::from_millis(250));
+                let d = done.load(Ordering::SeqCst);
+                if d >= total {
+                    return;
+                }
+                if d != last {
+                    last = d;
+                    since = std::time::Instant::now();
+                } else if since.elapsed().as_secs() >= limit {
+                    if let Ok(mut w) = out.lock() {
+                        let _ = writeln!(w, "hang ## fail hang");
+                        for _ in d + 1..total {
+                            let _ = writeln!(w, "skipped");
+                        }
+                        let _ = w.flush();
+                    }
+                    std::process::exit(3);
+                }
+            }
+        });
+    }
+    for line in &lines {
         let o = f(line.trim());
         debug_assert!(!o.contains('\n'));
-        writeln!(out, "{}", o)?;
+        writeln!(out.lock().unwrap(), "{}", o)?;
+        done.fetch_add(1, Ordering::SeqCst);
     }
-    out.flush()
+    let r = out.lock().unwrap().flush();
+    r
 }
 
 /// Silences the default panic message (cases are run under `catch_unwind`).
